@@ -582,31 +582,55 @@ def dec_validate(sx):
 
 
 # ---- writer
-def impl_writer(hlines, mode, specs):
+def impl_writer(hlines, mode, specs, channel="fd"):
+    """channel: "fd" (MafWriter.from_fd on io.StringIO), "path" / "gz" (MafWriter.from_path on a scratch file
+    under /verif/work/<unique>, plain or gzip-compressed; removed afterwards)"""
     ensure_repo()
+    import gzip
+    import os
+    import shutil
+    import tempfile
     from maflib.header import MafHeader
     from maflib.record import MafRecord
     from maflib.writer import MafWriter
     h = MafHeader.from_lines(list(hlines), validation_stringency=py_mode("Silent"))
     recs = [MafRecord.from_line(validation_stringency=py_mode("Silent"), **_recspec_args(s)) for s in specs]
     fd = io.StringIO()
-    with LogCapture() as cap:
-        try:
-            w = MafWriter.from_fd(fd, header=h, validation_stringency=py_mode(mode))
-        except Exception as e:  # noqa
-            return {"log": cap.take(), "init": ["exc", c_exn(e)]}
-        out = {"log": cap.take(), "init": ["ok", c_errs(h.validation_errors)], "adds": []}
-        for r in recs:
+    work = None
+    path = None
+    if channel != "fd":
+        os.makedirs("/verif/work", exist_ok=True)
+        work = tempfile.mkdtemp(prefix="rdw_", dir="/verif/work")
+        path = os.path.join(work, "out.maf" + (".gz" if channel == "gz" else ""))
+    try:
+        with LogCapture() as cap:
             try:
-                w += r
-                res = ["ok", c_errs(r.validation_errors)]
+                if channel == "fd":
+                    w = MafWriter.from_fd(fd, header=h, validation_stringency=py_mode(mode))
+                else:
+                    w = MafWriter.from_path(path, header=h, validation_stringency=py_mode(mode))
             except Exception as e:  # noqa
-                res = ["exc", c_exn(e)]
-            out["adds"].append({"log": cap.take(), "res": res})
-        text = fd.getvalue()
-        out["out"] = ([] if text == "" else
-                      text.split("\n")[:-1] if text.endswith("\n") else ["<no trailing newline>" + text])
-    return out
+                return {"log": cap.take(), "init": ["exc", c_exn(e)]}
+            out = {"log": cap.take(), "init": ["ok", c_errs(h.validation_errors)], "adds": []}
+            for r in recs:
+                try:
+                    w += r
+                    res = ["ok", c_errs(r.validation_errors)]
+                except Exception as e:  # noqa
+                    res = ["exc", c_exn(e)]
+                out["adds"].append({"log": cap.take(), "res": res})
+            if channel == "fd":
+                text = fd.getvalue()
+            else:
+                w.close()
+                with (gzip.open(path, "rt") if channel == "gz" else open(path, "r")) as fh:
+                    text = fh.read()
+            out["out"] = ([] if text == "" else
+                          text.split("\n")[:-1] if text.endswith("\n") else ["<no trailing newline>" + text])
+        return out
+    finally:
+        if work is not None:
+            shutil.rmtree(work, ignore_errors=True)
 
 
 def wire_writer(hlines, mode, specs):
